@@ -44,6 +44,15 @@ type Case struct {
 	Level      kit.Level         `json:"level"`
 	Token      bool              `json:"token"` // envelope carries a valid RFC 3161 countersignature (x509 only)
 	RealStore  bool              `json:"realStore"` // the directory-backed trust store instead of the scripted one
+	Warmup     []Step            `json:"warmup"`    // verifications performed on the SAME verifier before the judged one
+}
+
+// Step is an earlier verification on the same verifier instance (its result is not judged;
+// it must not influence the judged verification).
+type Step struct {
+	Scheme string `json:"scheme"`
+	Format string `json:"format"`
+	Select int    `json:"select"`
 }
 
 type loggingStore struct {
@@ -141,6 +150,7 @@ func check(c Case) (string, string, bool) {
 	env := envb.Build(spec)
 	var ts truststore.X509TrustStore
 	var calls func() []string
+	resetCalls := func() {}
 	if c.RealStore {
 		root, err := os.MkdirTemp("", "c03-")
 		if err != nil {
@@ -165,6 +175,7 @@ func check(c Case) (string, string, bool) {
 		}
 		lts := &loggingStore{inner: truststore.NewX509TrustStore(dir.NewSysFS(root))}
 		ts, calls = lts, func() []string { return lts.calls }
+		resetCalls = func() { lts.calls = nil }
 	} else {
 		mts := mocks.NewTrustStore()
 		for ref, content := range c.Stores {
@@ -177,6 +188,7 @@ func check(c Case) (string, string, bool) {
 			}
 		}
 		ts, calls = mts, func() []string { return mts.Calls }
+		resetCalls = func() { mts.Calls = nil }
 	}
 	doc := &trustpolicy.OCIDocument{Version: "1.0"}
 	for k, list := range c.Statements {
@@ -193,10 +205,22 @@ func check(c Case) (string, string, bool) {
 	if err != nil {
 		return "harness", "verifier construction: " + err.Error(), false
 	}
-	ref := scopeOf(c.Select) + "@" + desc.Digest.String()
-	if c.Wildcard && c.Select == len(c.Statements)-1 {
-		ref = "registry.example/c03/unlisted@" + desc.Digest.String()
+	refFor := func(sel int) string {
+		if c.Wildcard && sel == len(c.Statements)-1 {
+			return "registry.example/c03/unlisted@" + desc.Digest.String()
+		}
+		return scopeOf(sel) + "@" + desc.Digest.String()
 	}
+	for _, w := range c.Warmup {
+		ws := spec
+		ws.Format, ws.Scheme, ws.Timestamp = w.Format, envb.SchemeX509, nil
+		if w.Scheme == "sa" {
+			ws.Scheme = envb.SchemeSA
+		}
+		v.Verify(context.Background(), desc, envb.Build(ws), notation.VerifierVerifyOptions{ArtifactReference: refFor(w.Select), SignatureMediaType: w.Format})
+	}
+	resetCalls()
+	ref := refFor(c.Select)
 	out, verr := v.Verify(context.Background(), desc, env, notation.VerifierVerifyOptions{ArtifactReference: ref, SignatureMediaType: c.Format})
 	if out == nil {
 		return "C03:nil-outcome", fmt.Sprintf("nil outcome, err=%v", verr), false
@@ -304,12 +328,21 @@ func record(rec *stats.Recorder, c Case, pass bool) {
 	if c.RealStore {
 		cl = append(cl, "real-directory-store")
 	}
+	if len(c.Warmup) > 0 {
+		cl = append(cl, "reused-verifier")
+		for _, w := range c.Warmup {
+			if w.Scheme != c.Scheme && w.Select == c.Select {
+				cl = append(cl, "reused-verifier-other-scheme-same-statement")
+				break
+			}
+		}
+	}
 	var keys []string
 	for k, v := range c.Stores {
 		keys = append(keys, k+"="+v)
 	}
 	sort.Strings(keys)
-	rec.Case(dedup(cl), nt, stats.Fingerprint(strings.Join(keys, ";"), fmt.Sprint(c.Statements), c.Wildcard, c.Select, c.Scheme, c.Format, c.Level.Key(), c.RealStore), func() any { return c })
+	rec.Case(dedup(cl), nt, stats.Fingerprint(strings.Join(keys, ";"), fmt.Sprint(c.Statements), c.Wildcard, c.Select, c.Scheme, c.Format, c.Level.Key(), c.RealStore, fmt.Sprint(c.Warmup)), func() any { return c })
 }
 
 func dedup(in []string) []string {
@@ -355,6 +388,9 @@ func TestC03_Placements(t *testing.T) {
 		}
 		c.Wildcard = rapid.Bool().Draw(rt, "wildcard")
 		c.Select = rapid.IntRange(0, n-1).Draw(rt, "select")
+		for i := 0; i < rp.Pick(rt, "warmups", 0, 0, 1, 2, 3); i++ {
+			c.Warmup = append(c.Warmup, Step{Scheme: rp.Pick(rt, "wScheme", "x509", "sa"), Format: rp.Pick(rt, "wFormat", envb.MTJWS, envb.MTCOSE), Select: rapid.IntRange(0, n-1).Draw(rt, "wSelect")})
+		}
 		key, msg, pass := check(c)
 		record(rec, c, pass)
 		if key == "harness" {
